@@ -32,14 +32,19 @@ ENUM_KINDS = ("exec", "query", "sudo")
 MT_IDS = ("S1", "R1", "R2")     # programs whose multitest proxies are exercised (C12)
 
 
-def val_ix(val, i):
-    return (val + i) % 2
+def pick(t, val, i):
+    """(rust expression, json text) of the value of argument i (of type t) in message value `val`.
+    Integers beyond the second position are distinct per position, so that a permutation of same-typed arguments is visible."""
+    if t == "u32" and i >= 2:
+        n = 1000 + 10 * i + val
+        return ("%du32" % n, str(n))
+    return TYPES[t][1][(val + i) % 2]
 
 
 def body_json(m, val, mode="exact"):
     items = []
     for i, a in enumerate(m["args"]):
-        j = TYPES[a["t"]][1][val_ix(val, i)][1]
+        j = pick(a["t"], val, i)[1]
         if mode == "missing" and i == 0:
             continue
         if mode == "wrongtype" and i == 0:
@@ -124,7 +129,7 @@ def encode_src(prog):
     for part in prog["parts"]:
         for m in part["methods"]:
             for val in (0, 1):
-                lets = "".join("let %s: %s = %s; " % (a["n"], TYPES[a["t"]][0], TYPES[a["t"]][1][val_ix(val, i)][0])
+                lets = "".join("let %s: %s = %s; " % (a["n"], TYPES[a["t"]][0], pick(a["t"], val, i)[0])
                                for i, a in enumerate(m["args"]))
                 fields = ", ".join("%s: %s.clone()" % (a["n"], a["n"]) for a in m["args"])
                 if m["kind"] in ENUM_KINDS:
@@ -155,7 +160,7 @@ def remote_src(prog):
                 continue        # the helper decodes the declared type, the handler returns another one
             for val, handle in ((0, "contract"), (1, "dyn" if part["id"] != "own" else "contract")):
                 n += 1
-                lets = "".join("let %s: %s = %s; " % (a["n"], TYPES[a["t"]][0], TYPES[a["t"]][1][val_ix(val, i)][0])
+                lets = "".join("let %s: %s = %s; " % (a["n"], TYPES[a["t"]][0], pick(a["t"], val, i)[0])
                                for i, a in enumerate(m["args"]))
                 call_args = "".join(", %s.clone()" % a["n"] for a in m["args"])
                 encs = ", ".join('("%s", rec::enc(&%s))' % (a["n"], a["n"]) for a in m["args"])
@@ -185,7 +190,7 @@ def remote_src(prog):
     own = [p for p in prog["parts"] if p["id"] == "own"][0]
     inst = [m for m in own["methods"] if m["kind"] == "instantiate"][0]
     for val, variant in ((0, "plain"), (1, "full"), (0, "salted")):
-        lets = "".join("let %s: %s = %s; " % (a["n"], TYPES[a["t"]][0], TYPES[a["t"]][1][val_ix(val, i)][0]) for i, a in enumerate(inst["args"]))
+        lets = "".join("let %s: %s = %s; " % (a["n"], TYPES[a["t"]][0], pick(a["t"], val, i)[0]) for i, a in enumerate(inst["args"]))
         call_args = "".join(", %s.clone()" % a["n"] for a in inst["args"])
         encs = ", ".join('("%s", rec::enc(&%s))' % (a["n"], a["n"]) for a in inst["args"])
         o.append("        { use sv::CtrInstantiateBuilder; use sylvia::builder::instantiate::InstantiateBuilder; %slet funds = verif_rrt::funds_pool(%d);\n"
@@ -203,6 +208,45 @@ def remote_src(prog):
              "          remote::admin(&vt, \"update_admin\", &addr, \"new_adm\", remote.update_admin(\"new_adm\"));\n"
              "          remote::admin(&vt, \"clear_admin\", &addr, \"\", remote.clear_admin()); }\n"
              "        let _ = seq;\n    }\n\n")
+    return "".join(o)
+
+
+def builder_src(prog):
+    """The builders behind the remote helpers (C10): an interpreter of the runs the specification asks for."""
+    own = [p for p in prog["parts"] if p["id"] == "own"][0]
+    inst = [m for m in own["methods"] if m["kind"] == "instantiate"][0]
+    execs = [m for m in own["methods"] if m["kind"] == "exec"]
+
+    def lets(m):
+        return "".join("let %s: %s = %s; " % (a["n"], TYPES[a["t"]][0], pick(a["t"], 0, i)[0]) for i, a in enumerate(m["args"]))
+
+    def call_args(m):
+        return "".join(", %s.clone()" % a["n"] for a in m["args"])
+    o = ["    fn builder_events(runs: &serde_json::Value) {\n"
+         "        use sylvia::types::{EmptyExecutorBuilderState, ExecutorBuilder, Remote};\n"
+         "        use sylvia::cw_std::{Addr, Binary};\n"
+         "        use sv::CtrInstantiateBuilder; use sylvia::builder::instantiate::InstantiateBuilder;\n"
+         "        use verif_rrt::remote;\n        let vt = vt();\n"
+         "        for (target, sets, fin) in remote::builder_runs(runs) {\n"
+         "            if target == \"exec\" {\n"]
+    if execs:
+        m = execs[0]
+        o.append("                %slet addr = Addr::unchecked(\"target7\"); let remote: Remote<Ctr> = Remote::new(addr.clone());\n"
+                 "                let mut b = remote.executor(); remote::builder_new(&vt, \"exec\");\n"
+                 "                for (f, v) in &sets { if f == \"funds\" { b = b.with_funds(remote::builder_funds(v)); remote::builder_set(&vt, f, v); } }\n"
+                 "                let w = <ExecutorBuilder<(EmptyExecutorBuilderState, Ctr)> as sv::Executor>::%s(b%s).map(|b| b.build());\n"
+                 "                remote::builder_build(&vt, &fin, addr.as_str(), 0, \"\", w);\n" % (lets(m), m["near"], call_args(m)))
+    o.append("            } else {\n"
+             "                %slet b = InstantiateBuilder::ctr(77%s); remote::builder_new(&vt, \"inst\");\n"
+             "                let w = b.map(|mut b| {\n"
+             "                    for (f, v) in &sets {\n"
+             "                        b = match f.as_str() { \"funds\" => b.with_funds(remote::builder_funds(v)), \"label\" => b.with_label(v.as_str()), _ => b.with_admin(v.to_string()) };\n"
+             "                        remote::builder_set(&vt, f, v);\n"
+             "                    }\n"
+             "                    if fin == \"build2\" { b.build2(Binary::from(b\"salt\".to_vec())) } else { b.build() }\n"
+             "                });\n"
+             "                remote::builder_build(&vt, &fin, \"\", 77, if fin == \"build2\" { \"c2FsdA==\" } else { \"\" }, w);\n"
+             "            }\n        }\n    }\n\n" % (lets(inst), call_args(inst)))
     return "".join(o)
 
 
@@ -226,7 +270,7 @@ def mt_src(prog):
     mig = [m for m in own["methods"] if m["kind"] == "migrate"]
 
     def lets(m, val):
-        return "".join("let %s: %s = %s; " % (a["n"], TYPES[a["t"]][0], TYPES[a["t"]][1][val_ix(val, i)][0]) for i, a in enumerate(m["args"]))
+        return "".join("let %s: %s = %s; " % (a["n"], TYPES[a["t"]][0], pick(a["t"], val, i)[0]) for i, a in enumerate(m["args"]))
 
     def args(m):
         return ", ".join("%s.clone()" % a["n"] for a in m["args"])
@@ -439,8 +483,6 @@ def program_src(prog):
     o.append("    fn call_mt(kind: &str, deps: &mut Deps, env: Env, info: MessageInfo, doc: &[u8]) -> CallOut {\n"
              "        type MtC = dyn sylvia::cw_multi_test::Contract<sylvia::cw_std::Empty, sylvia::cw_std::Empty>;\n        let c = Ctr::new();\n        match kind {\n")
     for k in ("instantiate", "exec", "query", "sudo", "migrate"):
-        if k == "migrate" and not has("migrate"):
-            continue
         if k == "query":
             call = "outcome_bin(MtC::query(&c, deps.as_ref(), env, doc.to_vec()).map_err(|e| proj_anyhow(&e)))"
         elif k in ("exec", "instantiate"):
@@ -452,11 +494,13 @@ def program_src(prog):
     o.append("    fn encode_events() {\n" + encode_src(prog) + "    }\n\n")
     o.append(remote_src(prog))
     o.append(schema_src(prog))
+    if prog.get("builder"):
+        o.append(builder_src(prog))
     with_mt = prog["id"] in MT_IDS
     if with_mt:
         o.append(mt_src(prog))
     parts = ", ".join('"%s"' % p["id"] for p in prog["parts"])
-    o.append("    pub fn vt() -> ProgVt {\n        ProgVt { id: \"%s\", lists, decode_wrapper, decode_part, decode_struct, call_ep, call_mt, encode_events, schema_events: Some(schema_events), parts: &[%s], remote_events: %s, mt_histories: %s }\n    }\n" % (pid, parts, "None" if prog.get("overrides") else "Some(remote_events)", "Some(mt_histories)" if with_mt else "None"))
+    o.append("    pub fn vt() -> ProgVt {\n        ProgVt { id: \"%s\", lists, decode_wrapper, decode_part, decode_struct, call_ep, call_mt, encode_events, schema_events: Some(schema_events), parts: &[%s], remote_events: %s, mt_histories: %s, builder_events: %s }\n    }\n" % (pid, parts, "None" if prog.get("overrides") else "Some(remote_events)", "Some(mt_histories)" if with_mt else "None", "Some(builder_events)" if prog.get("builder") else "None"))
     o.append("}\n")
     return "".join(o)
 
